@@ -168,7 +168,7 @@ def check_C17(tier, seed):
                               {"correspondence": "harness macro table vs macros.rs", "found": macs})
     rng = random.Random(seed)
     thorough = tier == "thorough"
-    cases = gen_cases(rng, 2500 if thorough else 260)
+    cases = gen_cases(rng, 40000 if thorough else 260)
     fb = sorted(set(wire.all_float_bits(cases)))
     try:
         ftext = {}
